@@ -301,9 +301,88 @@ func genOpTable(repo, out string) {
 	writeIfChanged(filepath.Join(out, "OpTable.v"), b.String())
 }
 
+// keyedIdentMap reads `var <name> = map[string]T{ "k": Ident, ... }`.
+func keyedIdentMap(f *ast.File, varName string) map[string]string {
+	for _, d := range f.Decls {
+		gd, ok := d.(*ast.GenDecl)
+		if !ok || gd.Tok != token.VAR {
+			continue
+		}
+		for _, s := range gd.Specs {
+			vs := s.(*ast.ValueSpec)
+			if len(vs.Names) != 1 || vs.Names[0].Name != varName || len(vs.Values) != 1 {
+				continue
+			}
+			cl, ok := vs.Values[0].(*ast.CompositeLit)
+			if !ok {
+				fail("%s is not a composite literal", varName)
+			}
+			out := map[string]string{}
+			for _, e := range cl.Elts {
+				kv, ok := e.(*ast.KeyValueExpr)
+				if !ok {
+					fail("%s: element without key", varName)
+				}
+				k, ok := kv.Key.(*ast.BasicLit)
+				if !ok || k.Kind != token.STRING {
+					fail("%s: key is not a string literal", varName)
+				}
+				v, ok := kv.Value.(*ast.Ident)
+				if !ok {
+					fail("%s: value is not an identifier", varName)
+				}
+				key, err := strconv.Unquote(k.Value)
+				if err != nil {
+					fail("%v", err)
+				}
+				if _, dup := out[key]; dup {
+					fail("%s: duplicate key %s", varName, key)
+				}
+				out[key] = v.Name
+			}
+			return out
+		}
+	}
+	fail("variable %s not found", varName)
+	return nil
+}
+
+func genBuiltins(repo, out string) {
+	f := parseFile(filepath.Join(repo, "builtins.go"))
+	consts := iotaConsts(f, "BuiltinType")
+	idx := map[string]int{}
+	for i, c := range consts {
+		idx[c] = i
+	}
+	m := keyedIdentMap(f, "BuiltinsMap")
+	names := make([]string, 0, len(m))
+	for k := range m {
+		names = append(names, k)
+	}
+	sort.Strings(names)
+	var b strings.Builder
+	b.WriteString("(* GENERATED by /verif/gen from builtins.go (BuiltinType constants, BuiltinsMap). Do not edit. *)\n")
+	b.WriteString("From Coq Require Import List ZArith String.\nImport ListNotations.\nLocal Open Scope Z_scope.\nLocal Open Scope string_scope.\n\n")
+	b.WriteString("Definition builtins_map : list (string * Z) :=\n  [")
+	for i, n := range names {
+		j, ok := idx[m[n]]
+		if !ok {
+			fail("BuiltinsMap: %s maps to unknown constant %s", n, m[n])
+		}
+		if i > 0 {
+			b.WriteString(";\n   ")
+		}
+		fmt.Fprintf(&b, "(\"%s\", %d)", n, j)
+	}
+	b.WriteString("].\n\n")
+	fmt.Fprintf(&b, "Definition num_builtin_types : Z := %d.\n", len(consts))
+	writeIfChanged(filepath.Join(out, "Builtins.v"), b.String())
+}
+
 func main() {
 	repo := flag.String("repo", "/repo", "repository root")
 	out := flag.String("out", "/verif/coq/theories/Gen", "output directory")
 	flag.Parse()
 	genOpTable(*repo, *out)
+	genBuiltins(*repo, *out)
 }
